@@ -65,7 +65,7 @@ def run(tier, seed):
                       "domains x array_adaptive parameter settings; every concrete execution explored; the scalar receiving a load "
                       "must lie in its reported interval/constraints at every block boundary, and no reachable state is bottom. "
                       "non-trivial = (program, run) with a non-top non-bottom post-invariant")
-    ck.assumptions += ["every array is initialised (at least partly) in the entry block: arrays whose content is unknown at their first use are not generated (DESIGN.md 9.5a)",
+    ck.assumptions += ["every array is written in the entry block before it is read; except in the `lostcopy` shape (where the first write may be a store at a symbolic index) it is initialised, at least partly, by array_init first: arrays whose content is unknown at their first use on some path only are not generated (DESIGN.md 9.5a)",
                        "reads of never-written cells, misaligned or out-of-range accesses are outside the model (execution not followed)",
                        "one uniform element size per program (documented word-level assumption)"]
     return ck.finish()
